@@ -17,6 +17,21 @@ MISSED_AT_FIRST = {
     'C12-2': 'missed: the unit variable\'s default was given in its declared unit; a second variable now has its default in another compatible unit and is never updated',
     'C04-2': 'caught only by C08 at first (in-place accumulate on arrays); C04\'s permutation class now has a process that hands the array it was shown back as its update',
     'C15-2': 'missed: every Composite was used once; C15 now builds a second store from the same Composite without initial state',
+    'C16-2': 'missed: overrides were always merged before the composite was first loaded; C16 now also merges the override after a first generate_store()',
+    'C17-2': 'missed: trees were static; C17 now re-checks path_for / path_to / get_path after a subtree was moved with the real Store.move',
+    'C18-2': "missed: variable names never collided with the time key; nested variables may now be called 'time' / 'value'",
+    'C01-3': 'missed at first by C01 (parallel cases had no conditions), caught by C13 only after conditions were added there; both now generate update conditions on parallel processes',
+    'C02-3': 'missed by C02 (always-on processes only; caught by C01): C02 now has a non-overlap oracle for conditional processes',
+    'C09-3': 'missed: an _add list never named one key twice; op kind add_dup added',
+    'C10-3': 'missed: every initial composite had flow entries; initial composites may now have no flow at all (flow steps arrive later)',
+    'C13-3': 'missed: leaked workers were reaped by the harness\'s own final garbage collection; workers of deleted parallel processes are now checked while the run is still alive, and cells may hold a parallel flow step',
+    'C11-3': 'missed: dictionary-form dividers only sat on leaves; two branch-level dictionary-form dividers added',
+    'C05-3': 'missed by C05 (no deletion there; caught by C10): C05 now has a step that deletes a generated compartment mid-phase',
+    'C12-3': 'missed: no variable had both a custom serializer and a quantity default; variable qser added',
+    'C19-3': 'missed: every event had its own change dictionary; one dictionary object may now be listed at several times',
+    'C18-3': 'missed: rows always reached the emitter in time order; a fifth of the histories is now emitted out of order and judged by alignment',
+    'C16-3': 'missed: merges only went into Composite({}); the receiving composite may now be composer-generated, and a composite generated afterwards must be pristine',
+    'C15-3': 'missed: the declaring process was never a Step and glob children never held processes; both added to the generator',
 }
 
 
